@@ -67,6 +67,10 @@ class Check(PropertyCheck):
                 bad = gen.gen_invalid_request(rng, tr, M)
                 if bad:
                     lines += [f"disp {bad[0]} {bad[1]} {bad[2]}", "q current_time", "q completed"]
+            if rng.random() < 0.08:
+                # a look-ahead on a copy of the dispatcher, which is then queried itself: the original's clock is its own
+                pj, pp, pm = gen.gen_valid_request(rng, tr, "uniform")
+                lines += [f"peek {pj} {pp} {pm}", "q current_time", "q completed"]
             j, p, m = gen.gen_valid_request(rng, tr, rng.choice(["uniform", "one_job_first"]))
             tr.take(j)
             n_acc += 1
